@@ -79,6 +79,11 @@ package ignorefiles
 //@   ensures C19,C10.load.result: err == nil ==> rs != nil
 // the built-in rules are the answer only when the package has no rule file; otherwise the rules come from parsing the
 // file that was opened at <packageDir>/.terraformignore (os.Open follows a link there, as the prepare walk allows)
+// the rule file is opened only after os.Stat has shown that it is a regular file (or that Stat itself fails, in which
+// case Open fails the same way): opening a fifo would block
+//@   ghost $statPath String = ""
+//@   ghost $statSaysOpenable Bool = false
+//@   at-call os.Open C19.load.opens-only-regular: $statPath == a0 && $statSaysOpenable
 //@   ghost $openPath String = ""
 //@   ghost $openNotExist Bool = false
 //@   ghost $openOK Bool = false
